@@ -251,7 +251,54 @@ fn build(tier: Tier) -> Vec<Scenario> {
             }
         }
     }
+    // zip of timestamped streams with watermarks, through the real two-input Start: every
+    // interleaving of the two sides (all answers of the two-way select)
+    for a in 0..=2usize {
+        for b in 0..=2usize {
+            for off in [0i64, 2] {
+                out.push(zip_timestamped(a, b, off));
+            }
+        }
+    }
     out
+}
+
+fn zip_timestamped(a: usize, b: usize, off: i64) -> Scenario {
+    use crate::e2::{drive_binary, select_scenario, shape, watermark_safety};
+    use renoir::{RuntimeConfig, StreamContext};
+    let name = format!("C09/zip-timestamped/a{a}-b{b}-off{off}");
+    let descr = format!("zip of {a} left elements (timestamps 0..) and {b} right elements (timestamps {off}..), a watermark after every element, every interleaving of the two sides");
+    select_scenario(name, descr.clone(), Arc::new(move || {
+        let side = |n: usize, base: i64, off: i64| -> Vec<Vec<StreamElement<i64>>> {
+            let mut v = vec![];
+            for i in 0..n as i64 {
+                v.push(vec![StreamElement::Timestamped(base + i, off + i)]);
+                v.push(vec![StreamElement::Watermark(off + i)]);
+            }
+            v.push(vec![StreamElement::FlushAndRestart]);
+            v.push(vec![StreamElement::Terminate]);
+            v
+        };
+        let env = StreamContext::new(RuntimeConfig::local(1).unwrap());
+        let s1 = env.stream(ScriptSource::<i64>::new(vec![], Replication::One));
+        let s2 = env.stream(ScriptSource::<i64>::new(vec![], Replication::One));
+        let out = drive_binary(s1.zip(s2).verif_into_chain(), vec![side(a, 0, 0)], vec![side(b, 100, off)]);
+        let pairs: Vec<(i64, i64)> = out.iter().filter_map(|e| match e {
+            StreamElement::Timestamped(p, _) | StreamElement::Item(p) => Some(*p),
+            _ => None,
+        }).collect();
+        let exp: Vec<(i64, i64)> = (0..a.min(b) as i64).map(|i| (i, 100 + i)).collect();
+        if pairs != exp {
+            return Some(Fail::new(
+                if pairs.len() != exp.len() { "c09-zip-count" } else { "c09-zip-not-positional" },
+                format!("{descr}: pairs {:?}, expected {:?}", pairs, exp),
+            ));
+        }
+        if let Some((sig, msg)) = watermark_safety(&shape(&out)) {
+            return Some(Fail::new(format!("c09-zip-{sig}"), format!("{descr}: {msg}")));
+        }
+        None
+    }))
 }
 
 pub fn spec() -> PropSpec {
